@@ -1,4 +1,5 @@
 import TF.Proofs.Codec
+import TF.Proofs.GenBridgeCodec
 /-!
 # C03 — BFieldCodec: round trip, unique encoding, static length, documented layout
 
@@ -155,5 +156,124 @@ theorem zero_width_array_rejects_own_encoding :
 theorem zero_width_witnesses_excluded :
     ¬ NoZeroWidthItems (.vec .phantom) ∧ ¬ NoZeroWidthItems (.vec (.array 0 .u32)) ∧
     ¬ NoZeroWidthItems (.array 3 .phantom) ∧ ¬ NoZeroWidthItems (.array 2 (.array 0 .u32)) := by decide
+
+end TF.C03
+
+/-! ## regenerated-from-source bridge: the leaf codecs (P03)
+
+The leaf impls of `BFieldCodec` — the two `macro_rules!` bodies `impl_bfield_codec_for_big_primitive_uint!(u64, 2)`,
+`(u128, 4)` and `impl_bfield_codec_for_small_primitive_uint!(u8, u16, u32)`, the hand-written impls for `bool` and
+`BFieldElement`, and the `From` impls of `b_field_element.rs` they go through — are **regenerated from the source on every
+run** (`TF/Gen/CodecLeaves.lean`, `TF.Gen.Loops.codec_*`, written by `tools/rs2lean_conv.py`; every function `f` has a twin
+`f_ok`, true iff no arithmetic overflow / index out of range / failing `unwrap`).  They work on *raw Montgomery words*;
+`vals r = r.map bfe_value` reads the canonical values, `Raw r`: all words `< P`; a `Result<_, BFieldCodecError>` is
+`Except String _` whose error is the variant's name, and `exceptNat` / `exceptBool` print a model outcome in that form
+(`.err .empty ↦ "EmptySequence"`, `.tooShort ↦ "SequenceTooShort"`, `.tooLong ↦ "SequenceTooLong"`,
+`.range ↦ "ElementOutOfRange"`).  Proofs: `TF/Proofs/GenBridgeCodec.lean`, `TF/Proofs/GenBridgeCodecArith.lean`.
+The theorems hold for **all** sequences of words and **all** values: which sequences are accepted, the decoded value, the
+error (wrong length, limb `≥ 2^32`, value out of range, `bool > 1`), the limb split of the encoding.  A one-token change
+of one of these Rust functions changes `TF.Gen.Loops.codec_*`; the theorems below are then re-checked or break. -/
+namespace TF.C03
+open TF.Codec TF.Gen TF.GenBridge.Codec
+
+/-- regenerated `u64` codec = leaf case of the hand model: decoder on every sequence of words (accepted sequences, value,
+    error kind), encoder on every value (limb split; the produced words are canonical), static length; nothing overflows -/
+theorem gen_u64_codec_eq_model (r : List Nat) (n : Nat) :
+    Loops.codec_u64_decode r = exceptNat (decode .u64 (vals r)) ∧ Loops.codec_u64_decode_ok r = true ∧
+    vals (Loops.codec_u64_encode n) = encode .u64 (.num n) ∧ Raw (Loops.codec_u64_encode n) ∧
+    Loops.codec_u64_encode_ok n = true ∧ Loops.codec_u64_static_length = staticLength .u64 :=
+  ⟨(gen_u64_decode r).1, (gen_u64_decode r).2, (gen_u64_encode n).1, (gen_u64_encode n).2.1, (gen_u64_encode n).2.2,
+    gen_static_lengths.1⟩
+example : Loops.codec_u64_decode [bfe_new 4294967295, bfe_new 4294967295] = .ok 18446744073709551615 ∧
+    Loops.codec_u64_decode [bfe_new 4294967295, bfe_new 4294967296] = .error "ElementOutOfRange" ∧
+    Loops.codec_u64_decode [bfe_new 1] = .error "SequenceTooShort" ∧
+    Loops.codec_u64_decode [bfe_new 1, 0, 0] = .error "SequenceTooLong" ∧
+    Loops.codec_u64_decode [] = .error "EmptySequence" ∧
+    vals (Loops.codec_u64_encode 18446744069414584321) = [1, 4294967295] := by decide +kernel
+
+/-- regenerated `u128` codec = leaf case of the hand model (four limbs; the encoder goes through `From<u128>`, i.e.
+    `mod_reduce`) -/
+theorem gen_u128_codec_eq_model (r : List Nat) (n : Nat) :
+    Loops.codec_u128_decode r = exceptNat (decode .u128 (vals r)) ∧ Loops.codec_u128_decode_ok r = true ∧
+    vals (Loops.codec_u128_encode n) = encode .u128 (.num n) ∧ Raw (Loops.codec_u128_encode n) ∧
+    Loops.codec_u128_encode_ok n = true ∧ Loops.codec_u128_static_length = staticLength .u128 :=
+  ⟨(gen_u128_decode r).1, (gen_u128_decode r).2, (gen_u128_encode n).1, (gen_u128_encode n).2.1, (gen_u128_encode n).2.2,
+    gen_static_lengths.2.1⟩
+example : Loops.codec_u128_decode [bfe_new 4294967295, bfe_new 4294967295, bfe_new 4294967295, bfe_new 4294967295]
+      = .ok 340282366920938463463374607431768211455 ∧
+    Loops.codec_u128_decode [0, 0, 0, bfe_new 4294967296] = .error "ElementOutOfRange" ∧
+    Loops.codec_u128_decode [0, 0, 0] = .error "SequenceTooShort" ∧
+    vals (Loops.codec_u128_encode (2 ^ 96 + 2 ^ 64 * 5 + 2 ^ 32 * 7 + 9)) = [9, 7, 5, 1] := by decide +kernel
+
+/-- regenerated `u8` / `u16` / `u32` codecs = leaf cases of the hand model (`uN::try_from(first.value())`) -/
+theorem gen_small_codec_eq_model (r : List Nat) (n : Nat) (hn : n < TF.Gen.P) :
+    Loops.codec_u8_decode r = exceptNat (decode .u8 (vals r)) ∧ Loops.codec_u8_decode_ok r = true ∧
+    Loops.codec_u16_decode r = exceptNat (decode .u16 (vals r)) ∧ Loops.codec_u16_decode_ok r = true ∧
+    Loops.codec_u32_decode r = exceptNat (decode .u32 (vals r)) ∧ Loops.codec_u32_decode_ok r = true ∧
+    vals (Loops.codec_u8_encode n) = encode .u8 (.num n) ∧ vals (Loops.codec_u16_encode n) = encode .u16 (.num n) ∧
+    vals (Loops.codec_u32_encode n) = encode .u32 (.num n) ∧
+    Raw (Loops.codec_u8_encode n) ∧ Raw (Loops.codec_u16_encode n) ∧ Raw (Loops.codec_u32_encode n) ∧
+    Loops.codec_u8_encode_ok n = true ∧ Loops.codec_u16_encode_ok n = true ∧ Loops.codec_u32_encode_ok n = true ∧
+    Loops.codec_u8_static_length = staticLength .u8 ∧ Loops.codec_u16_static_length = staticLength .u16 ∧
+    Loops.codec_u32_static_length = staticLength .u32 := by
+  obtain ⟨e8, e16, e32, r8, r16, r32, o8, o16, o32⟩ := gen_small_encode n hn
+  exact ⟨(gen_u8_decode r).1, (gen_u8_decode r).2, (gen_u16_decode r).1, (gen_u16_decode r).2, (gen_u32_decode r).1,
+    (gen_u32_decode r).2, e8, e16, e32, r8, r16, r32, o8, o16, o32, gen_static_lengths.2.2.1, gen_static_lengths.2.2.2.1,
+    gen_static_lengths.2.2.2.2.1⟩
+example : Loops.codec_u8_decode [bfe_new 255] = .ok 255 ∧ Loops.codec_u8_decode [bfe_new 256] = .error "ElementOutOfRange" ∧
+    Loops.codec_u16_decode [bfe_new 65535] = .ok 65535 ∧ Loops.codec_u16_decode [bfe_new 65536] = .error "ElementOutOfRange" ∧
+    Loops.codec_u32_decode [bfe_new 4294967296] = .error "ElementOutOfRange" ∧
+    Loops.codec_u32_decode [0, 0] = .error "SequenceTooLong" ∧ vals (Loops.codec_u16_encode 513) = [513] := by
+  decide +kernel
+
+/-- regenerated `bool` and `BFieldElement` codecs = leaf cases of the hand model (`bool`: the model's value is `0`/`1`;
+    `BFieldElement`: the source returns / takes the word itself, the model its value) -/
+theorem gen_bool_bfe_codec_eq_model (r : List Nat) (b : Bool) (x : Nat) :
+    Loops.codec_bool_decode r = exceptBool (decode .bool (vals r)) ∧ Loops.codec_bool_decode_ok r = true ∧
+    vals (Loops.codec_bool_encode b) = encode .bool (.num (if b then 1 else 0)) ∧ Raw (Loops.codec_bool_encode b) ∧
+    Loops.codec_bool_encode_ok b = true ∧ Loops.codec_bool_static_length = staticLength .bool ∧
+    exceptVal (Loops.codec_bfe_decode r) = exceptNat (decode .bfe (vals r)) ∧ Loops.codec_bfe_decode_ok r = true ∧
+    vals (Loops.codec_bfe_encode x) = encode .bfe (.num (bfe_value x)) ∧ Loops.codec_bfe_encode x = [x] ∧
+    Loops.codec_bfe_encode_ok x = true ∧ Loops.codec_bfe_static_length = staticLength .bfe :=
+  ⟨(gen_bool_decode r).1, (gen_bool_decode r).2, (gen_bool_encode b).1, (gen_bool_encode b).2.1, (gen_bool_encode b).2.2,
+    gen_static_lengths.2.2.2.2.2.1, (gen_bfe_decode r).1, (gen_bfe_decode r).2, (gen_bfe_encode x).1, (gen_bfe_encode x).2.1,
+    (gen_bfe_encode x).2.2, gen_static_lengths.2.2.2.2.2.2⟩
+example : Loops.codec_bool_decode [bfe_new 1] = .ok true ∧ Loops.codec_bool_decode [bfe_new 2] = .error "ElementOutOfRange" ∧
+    Loops.codec_bool_decode [] = .error "EmptySequence" ∧ Loops.codec_bfe_decode [7, 8] = .error "SequenceTooLong" ∧
+    Loops.codec_bfe_decode [7] = .ok 7 ∧ vals (Loops.codec_bool_encode true) = [1] := by decide +kernel
+
+/-- **transfer** of `layout_u64` / `layout_u128`, `decode_encode`, `encode_decode` and `static_length_spec` to the code as
+    it is in the source now: the regenerated encoders emit the little-endian 32-bit limbs (as canonical words), the
+    regenerated decoders invert them, an accepted sequence of words has exactly the values of the encoding of the decoded
+    integer, and encodings have the static length -/
+theorem gen_leaf_layout_roundtrip_transfer (n : Nat) (r : List Nat) :
+    vals (Loops.codec_u64_encode n) = [n % 2^32, n / 2^32 % 2^32] ∧
+    vals (Loops.codec_u128_encode n) = [n % 2^32, n / 2^32 % 2^32, n / 2^64 % 2^32, n / 2^96 % 2^32] ∧
+    (n < 2^64 → Loops.codec_u64_decode (Loops.codec_u64_encode n) = .ok n) ∧
+    (n < 2^128 → Loops.codec_u128_decode (Loops.codec_u128_encode n) = .ok n) ∧
+    (Loops.codec_u64_decode r = .ok n → vals r = vals (Loops.codec_u64_encode n)) ∧
+    (Loops.codec_u128_decode r = .ok n → vals r = vals (Loops.codec_u128_encode n)) ∧
+    some (Loops.codec_u64_encode n).length = Loops.codec_u64_static_length ∧
+    some (Loops.codec_u128_encode n).length = Loops.codec_u128_static_length := by
+  have e64 := (gen_u64_encode n).1
+  have e128 := (gen_u128_encode n).1
+  have d64 : ∀ s, decode .u64 s = .ok (.num n) → exceptNat (decode .u64 s) = .ok n := fun s h => by rw [h]; rfl
+  have d128 : ∀ s, decode .u128 s = .ok (.num n) → exceptNat (decode .u128 s) = .ok n := fun s h => by rw [h]; rfl
+  refine ⟨?_, ?_, fun h => ?_, fun h => ?_, fun h => ?_, fun h => ?_, ?_, ?_⟩
+  · rw [e64, layout_u64]
+  · rw [e128, layout_u128]
+  · rw [(gen_u64_decode _).1, e64]
+    exact d64 _ (decode_encode .u64 (.num n) (by simpa [HasTy, hasTy, isNumBelow] using h) (by decide) (by simp [encode]))
+  · rw [(gen_u128_decode _).1, e128]
+    exact d128 _ (decode_encode .u128 (.num n) (by simpa [HasTy, hasTy, isNumBelow] using h) (by decide)
+      (by simp [encode]))
+  · rw [(gen_u64_decode r).1] at h
+    rw [e64]; exact (encode_decode .u64 _ _ (exceptNat_u64_inv _ _ h)).symm
+  · rw [(gen_u128_decode r).1] at h
+    rw [e128]; exact (encode_decode .u128 _ _ (exceptNat_u128_inv _ _ h)).symm
+  · rw [(u64_encode_limbs n).1]; rfl
+  · rw [(u128_encode_limbs n).1]; rfl
+example : Loops.codec_u64_decode (Loops.codec_u64_encode 18446744073709551615) = .ok 18446744073709551615 ∧
+    (18446744073709551615 : Nat) < 2^64 := by decide +kernel
 
 end TF.C03
